@@ -578,6 +578,8 @@ class ServerTls(Server):
                                  certpath=self.certpath,
                                  cafilepath=self.cafilepath,
                                 )
+            if remoter.aborted:  # far side went away while being wrapped
+                continue  # nothing to serve
 
             self.cxes[ca] = remoter
 
@@ -902,7 +904,13 @@ class RemoterTls(Remoter):
                                     certpath=certpath,
                                     cafilepath=cafilepath
                                   )
-        self.wrap()
+        try:
+            self.wrap()
+        except OSError as ex:  # ssl.SSLError is a subtype of OSError
+            # far side reset or went away before socket could be wrapped
+            logger.error("OSError wrapping connection of %s with %s.\n%s\n", self.ha, self.ca, ex)
+            self.close()
+            self.aborted = True  # indicate client aborted, caller checks .aborted
 
 
     def close(self):
